@@ -24,7 +24,10 @@ ASSUMPTIONS = ["well-formedness side conditions of the property are enforced by 
                "alphabetic literals never occur only under && (keyword registration is a tokenizer convention)",
                "reference semantics of left recursion = seed growing at the smallest-named rule of the cycle"]
 
-SYMS = {"a": ("NAME", "a"), "b": ("NAME", "b"), "x": ("NAME", "x"), "1": ("NUMBER", "1"), "+": ("OP", "+")}
+SYMS = {"a": ("NAME", "a"), "b": ("NAME", "b"), "x": ("NAME", "x"), "1": ("NUMBER", "1"), "+": ("OP", "+"),
+        # a multi-character keyword candidate and a name that is a proper substring of it
+        "k": ("NAME", "if"), "i": ("NAME", "i")}
+CORE_SYMS = "abx1+"
 
 
 def worker_init():
@@ -52,13 +55,16 @@ class G:
         self.rnd = rnd
         self.n = nrules
         self.counter = itertools.count()
+        # the hard (single-quoted) literals of this grammar: palettes with 0, 1, 2 and 3 alphabetic literals, so that the generated
+        # keyword table has every small size (a one-element table is a classic tuple/str mix-up)
+        self.hard = rnd.choice([["a", "b", "+"], ["a", "b", "+"], ["if", "+"], ["+"], ["a", "+"], ["if", "a", "+"], ["if", "a", "b", "+"], ["b", "+", "+"]])
 
     def leaf(self):
         r = self.rnd.random()
         if r < 0.5:
-            return Lit(self.rnd.choice("ab+"))
+            return Lit(self.rnd.choice(self.hard))
         if r < 0.6:
-            return Lit(self.rnd.choice("ab"), soft=True)
+            return Lit(self.rnd.choice(["a", "b", "if"]), soft=True)
         if r < 0.8:
             return Cls("NAME")
         return Cls("NUMBER")
@@ -221,10 +227,10 @@ def derive(rnd, rules, kw, limit=14):
         if len(out) > limit:
             return
         if t is Lit:
-            out.append(it.s)
+            out.append("k" if it.s == "if" else it.s)
         elif t is Cls:
             if it.name == "NAME":
-                cands = [c for c in "xab" if c not in kw]
+                cands = [c for c in "xabi" if SYMS[c][1] not in kw] + ([] if "if" in kw else ["k"])
                 out.append(rnd.choice(cands) if cands else "x")
             elif it.name == "NUMBER":
                 out.append("1")
@@ -265,7 +271,7 @@ def derive(rnd, rules, kw, limit=14):
         if word and rnd.random() < 0.5:
             del word[rnd.randrange(len(word))]
         else:
-            word.insert(rnd.randrange(len(word) + 1), rnd.choice("abx1+"))
+            word.insert(rnd.randrange(len(word) + 1), rnd.choice("abx1+ki"))
     return "".join(word)
 
 
@@ -453,7 +459,9 @@ def run_shard(shard):
             return acc.dump()
         rnd = random.Random(f"{shard['seed']}:{shard['idx']}")
         L = shard["length"]
-        words = ["".join(w) for l in range(L + 1) for w in itertools.product("abx1+", repeat=l)]
+        words = ["".join(w) for l in range(L + 1) for w in itertools.product(CORE_SYMS, repeat=l)]
+        seen_words = set(words)
+        words += [w for w in ("".join(t) for l in range(1, 4) for t in itertools.product("abx1+ki", repeat=l)) if w not in seen_words]
         if shard["idx"] == 0:
             fold_family(acc, rnd, scratch)
         for _ in range(shard["grammars"]):
